@@ -130,6 +130,90 @@ def run_config(cfg):
     return traces
 
 
+def _cache_like(path):
+    import h5py
+    try:
+        if path.lower().endswith((".hdf5", ".h5", ".hdf", ".he5", ".fits")) or os.path.getsize(path) == 0:
+            return True
+        return bool(h5py.is_hdf5(path))
+    except OSError:
+        return False
+
+
+def run_config_mp(cfg):
+    """thorough: failures INSIDE real worker processes (schwimmbad.MultiPool).  Workers are forked while the interposition is
+    active and inherit the armed recorder; each worker counts its own calls, so (kind, j) fails the j-th call of that kind in
+    whichever worker gets there.  A marker file tells the parent whether the fault fired at all (else the run is not a case)."""
+    import glob
+    import schwimmbad
+    from .. import collab, faults, sampler_driver as sd, tokens
+    g = c02._setup()
+    lib = c02._lib(cfg["n"])
+    base = os.path.join(cfg["workdir"], cfg["id"])
+    tmpd = os.path.join(base, "tmp")
+    os.makedirs(tmpd, exist_ok=True)
+    old_tmp = tempfile.tempdir
+    tempfile.tempdir = tmpd
+    os.environ["TMPDIR"] = tmpd
+    traces = []
+    try:
+        s0 = sd.Session(lib, g["data"], g["prior"], seed=cfg["seed"], pool="serial", workdir=os.path.join(base, "ref"))
+        ref = s0.reference_ll()
+        for kind in ("read_batch", "utils_open_file", "utils_h5py"):
+            for j in (1, 2):
+                wd = os.path.join(base, "w")
+                shutil.rmtree(wd, ignore_errors=True)
+                os.makedirs(wd)
+                rec = collab.Recorder()
+                rec.fault = (kind, j)
+                rec.fault_marker = os.path.join(base, "fired-%s-%d" % (kind, j))
+                rec.counts = {}
+                pool = None
+                raised, same, exc_t, follow, left, usersame = False, False, "", True, [], True
+                with faults.interpose(rec):
+                    pool = schwimmbad.MultiPool(processes=2)       # forked here: workers carry the patched modules and the armed recorder
+                    try:
+                        rec.fault = None                           # the parent itself never fails: only the workers do
+                        s = sd.Session(lib, g["data"], g["prior"], seed=cfg["seed"], workdir=wd, real_pool=pool)
+                        userfile = s.libfile() if cfg["call"]["path"] == "file" else None
+                        sha0 = tokens.file_sha(userfile) if userfile else ""
+                        watch = [tmpd, os.path.join(wd, "tj")]
+                        before = _listing(watch)
+                        try:
+                            s.call(**cfg["call"])
+                            ret = s.events[-1]
+                            raised, exc_t = ret["raised"], ret["exc"]
+                            same = raised and exc_t.startswith("InjectedFault")
+                        except BaseException as ex:
+                            raised, same, exc_t = True, isinstance(ex, collab.InjectedFault), type(ex).__name__
+                        after = _listing(watch)
+                        # worker processes unpickle the prior, and pytensor's start-up probes leave small text files in TMPDIR:
+                        # here only sample-cache candidates count (HDF5 by content or name, or still empty)
+                        left = sorted(os.path.relpath(p, base) for p in (after - before) if p != userfile and _cache_like(p))
+                        usersame = (tokens.file_sha(userfile) == sha0) if userfile else True
+                    finally:
+                        pool.close()
+                # follow-up on the SAME TheJoker object, with a fresh pool (the failed one is closed above; pool reuse after a worker
+                # exception is the pool implementation's business, not thejoker's)
+                try:
+                    s.joker.pool = schwimmbad.SerialPool()
+                    ll = s.joker.marginal_ln_likelihood(g["data"], lib.samples, n_batches=2)
+                    follow = bool(np.array_equal(np.asarray(ll), ref))
+                except Exception:
+                    follow = False
+                fired = bool(glob.glob(rec.fault_marker + ".*"))
+                if not fired:
+                    continue
+                traces.append({"id": "%s-mp-%s-%d" % (cfg["id"], kind, j), "api": cfg["call"]["api"], "path": cfg["call"]["path"],
+                               "action": "RunTask", "occurrence": j, "injected": True, "raised": raised, "sameexc": same,
+                               "tmpleft": left, "usersame": usersame, "followok": follow, "modelpoint": True,
+                               "kind": kind, "exc": exc_t, "seq": [], "flavour": "worker-process"})
+    finally:
+        tempfile.tempdir = old_tmp
+        shutil.rmtree(base, ignore_errors=True)
+    return traces
+
+
 def _inject_one(one, traces, cfg, kind, j, flavour, action, inmem, model_points):
     r = one((kind, j, flavour))
     mp = (cfg["call"]["api"], "inmem" if inmem else cfg["call"]["path"], action) in model_points or \
@@ -183,6 +267,28 @@ def run(ctx, selftest=False):
             if t["injected"]:
                 ctx.nontrivial((t["api"], t["path"], t["kind"], t["occurrence"]))
             traces.append(t)
+    if not quick:
+        mp = []
+        k2 = 0
+        for api in ("marginal", "rejection", "iterative"):
+            for path in ("object", "file"):
+                call = dict(api=api, path=path, nbatches=3)
+                if api == "rejection":
+                    call.update(logprobs=True, randomize=(k2 % 2 == 0), nlinear=2)
+                if api == "iterative":
+                    call.update(nreq=2, initb=4, logprobs=True)
+                mp.append({"id": "mpcfg%d" % k2, "n": 9, "seed": 300 + k2, "call": call, "workdir": ctx.workdir})
+                k2 += 1
+        nmp = 0
+        for c in mp:                      # worker processes: one configuration at a time
+            for t in run_config_mp(c):
+                ctx.count()
+                ctx.nontrivial((t["api"], t["path"], t["kind"], t["occurrence"], "worker-process"))
+                traces.append(t)
+                nmp += 1
+        ctx.notes["crash_points_injected_inside_worker_processes"] = nmp
+        if nmp < 6:
+            raise core.MachineryError("worker-process faults: only %d fired" % nmp)
     ctx.notes["crash_points_injected"] = sum(1 for t in traces if t["injected"])
     ctx.notes["dynamic_call_sequence_sample"] = [t["seq"] for t in traces if not t["injected"]][:2]
     ctx.sample({k: v for k, v in traces[1].items()})
